@@ -23,9 +23,12 @@ ID = "C14"
 LEVEL = "exploration"
 RULE = (
     "cases = (backend, action->roles map with save and query each drawn from the non-empty subsets of {a,r,w,s} (all 225 "
-    "maps in thorough, a seeded third in quick), connections holding every role subset reachable through real NIP-42 "
-    "AUTH plus the unauthenticated one, both actions, stored and live delivery, output validator on). Role read-back: "
-    "seeded assignment sequences of 2-6 steps per pubkey incl. repeats within one second. Non-trivial = a (config, "
+    "maps in thorough, a seeded third in quick) plus maps in which save or query is the EMPTY collection (\"\" or []), connections holding every role subset reachable through real NIP-42 "
+    "AUTH plus the unauthenticated one, both actions, stored (REQs of all connections in flight together in half of the maps) "
+    "and live delivery, output validator on (verdict depends on the receiving connection's token), a connection whose first REQ "
+    "is refused and which authenticates and subscribes under another id afterwards). Role read-back: "
+    "seeded assignment sequences of 2-6 steps per pubkey incl. repeats within one second, and batches of assignments followed "
+    "at once by an orderly close and a re-open of the same store. Non-trivial = a (config, "
     "token, action) cell in which the expected verdict is 'refuse', or an EVENT frame whose validator verdict was "
     "checked. Distinct = distinct (backend, save roles, query roles, token roles, action, path)."
 )
@@ -35,7 +38,8 @@ ASSUMPTIONS = [
     "LMDB backend over /verif/shim; SQL = SQLite",
 ]
 MIN_NONTRIVIAL = {"quick": 150, "thorough": 1500}
-REQUIRED_COUNTERS = ["cells.save", "cells.query_stored", "cells.query_live", "cells.can_do", "validator.frames_checked", "readback.assignments"]
+REQUIRED_COUNTERS = ["cells.save", "cells.query_stored", "cells.query_stored_concurrent", "cells.query_live", "cells.can_do", "cells.refused_then_authenticated",
+                     "validator.frames_checked", "readback.assignments", "readback.after_reopen"]
 SHARD_TIMEOUT = {"quick": 600, "thorough": 3200}
 ALPHA = "arws"
 SUBSETS = ["".join(c) for n in range(1, 5) for c in itertools.combinations(ALPHA, n)]
@@ -47,6 +51,11 @@ def plan(tier, seed):
     r.shuffle(maps)
     if tier == "quick":
         maps = maps[:48]
+    # "nobody may do this over the websocket": an action configured with an empty role collection
+    # (string "" or list []; a map entry is a string, or a list for the list spelling)
+    empties = [("", "a"), ([], "ar"), ("aw", ""), ("arws", []), ("", ""), ([], "s")]
+    r.shuffle(empties)
+    maps = maps + (empties[:4] if tier == "quick" else empties * 3)
     shards = []
     per = 6 if tier == "quick" else 15
     for backend in ("sql", "lmdb"):
@@ -181,13 +190,27 @@ async def run_map(backend, save_roles, query_roles, counters, seed):
                     viols.append({"key": "%s/save-stored-without-role" % backend, "msg": "[%s] save=%s: event from a connection with roles %s was stored" % (backend, save_roles, rs or "anon"), "replay": rp})
         # ---- query (stored) ------------------------------------------------------------------------
         stored_ids = set(d["events"].keys())
+        together = seed % 2 == 0
+        n0_all = rig.rec.n
+        if together:
+            # every connection's REQ is in flight at the same time
+            for rs, c in conns.items():
+                if not c.exited:
+                    c.feed(["REQ", "q", {"kinds": [1, 31494]}])
+            for rs, c in conns.items():
+                if not c.exited:
+                    await c.processed()
+            await rig.quiesce()
+            bump(cells, "query_stored_concurrent", len(conns))
         for rs, c in conns.items():
             if c.exited:
                 continue
             allowed = bool(roles_of(rs) & set(query_roles))
-            n0 = rig.rec.n
-            await c.cmd(["REQ", "q", {"kinds": [1, 31494]}])
-            await rig.quiesce()
+            n0 = n0_all
+            if not together:
+                n0 = rig.rec.n
+                await c.cmd(["REQ", "q", {"kinds": [1, 31494]}])
+                await rig.quiesce()
             fr = [f for n, f in c.parsed_frames(n0) if isinstance(f, list)]
             evs = [f for f in fr if f[0] == "EVENT"]
             notices = [f for f in fr if f[0] == "NOTICE"]
@@ -201,19 +224,23 @@ async def run_map(backend, save_roles, query_roles, counters, seed):
             elif stored_ids and not evs and any(ev["id"] in stored_ids for ev, ok, _ in submitted.values()):
                 viols.append({"key": "%s/query-refused-with-role" % backend, "msg": "[%s] query=%s: roles %s got no stored events (notices %s)" % (backend, query_roles, rs or "anon", notices[:1]), "replay": rp})
         # ---- query (live) + output validator ---------------------------------------------------------
-        writer_rs = next((rs for rs in conns if roles_of(rs) & set(save_roles)), None)
+        writer_rs = next((rs for rs in conns if roles_of(rs) & set(save_roles) and not conns[rs].exited), None)
+
+        async def publish(ev):
+            if writer_rs is not None:
+                await conns[writer_rs].cmd(["EVENT", ev])
+            else:
+                try:
+                    await rig.storage.add_event(ev, auth_token={"roles": set(save_roles), "pubkey": service.pk})
+                except Exception:
+                    counters["live_publish_refused"] = counters.get("live_publish_refused", 0) + 1
+
         if writer_rs is not None or True:
             pubs = []
             for i, content in enumerate(["live ok", "live deny-output", "live only-for:%s" % (keys[role_sets[0]].pk if role_sets[0] else "anon")]):
                 ev = ref.make_event(service, kind=1, created_at=gen.T0 + 500 + i, content=content)
                 pubs.append(ev)
-                if writer_rs is not None:
-                    await conns[writer_rs].cmd(["EVENT", ev])
-                else:
-                    try:
-                        await rig.storage.add_event(ev, auth_token={"roles": set(save_roles), "pubkey": service.pk})
-                    except Exception:
-                        counters["live_publish_refused"] = counters.get("live_publish_refused", 0) + 1
+                await publish(ev)
             await rig.quiesce()
             for rs, c in conns.items():
                 allowed = bool(roles_of(rs) & set(query_roles))
@@ -223,10 +250,37 @@ async def run_map(backend, save_roles, query_roles, counters, seed):
                     if not allowed and ev["id"] in got:
                         viols.append({"key": "%s/query-served-without-role/live" % backend, "msg": "[%s] query=%s: live event pushed to roles %s" % (backend, query_roles, rs or "anon"), "replay": rp})
             # stored re-query of the live events (output validator on the stored path as well)
-            for rs, c in conns.items():
-                if bool(roles_of(rs) & set(query_roles)) and not c.exited:
-                    await c.cmd(["REQ", "q2", {"ids": [e["id"] for e in pubs]}])
+            q2 = [c for rs, c in conns.items() if bool(roles_of(rs) & set(query_roles)) and not c.exited]
+            for c in q2:
+                c.feed(["REQ", "q2", {"ids": [e["id"] for e in pubs]}])
+            for c in q2:
+                await c.processed()
             await rig.quiesce()
+            # ---- a REQ that was refused leaves nothing behind ------------------------------------------
+            # the connection asks too early, is refused, authenticates, subscribes under ANOTHER id
+            reader_rs = next((rs for rs in keys if rs and set(rs) & set(query_roles)), None)
+            if reader_rs is not None and "a" not in set(query_roles):
+                late = rig.connect("t-late")
+                n0 = rig.rec.n
+                await late.cmd(["REQ", "early", {"kinds": [1]}])
+                await rig.quiesce()
+                refused = any(isinstance(f, list) and f[0] == "NOTICE" and str(f[1]).startswith("restricted") for n, f in late.parsed_frames(n0))
+                ev1 = ref.make_event(service, kind=1, created_at=gen.T0 + 600, content="before the reader may read")
+                await publish(ev1)
+                await authenticate(late, keys[reader_rs], rig)
+                await late.cmd(["REQ", "mine", {"kinds": [7]}])
+                await rig.quiesce()
+                ev2 = ref.make_event(service, kind=1, created_at=gen.T0 + 601, content="after the reader subscribed to something else")
+                await publish(ev2)
+                await rig.quiesce()
+                bump(cells, "refused_then_authenticated")
+                if refused:
+                    nontrivial.append(h([backend, save_roles, query_roles, reader_rs, "refused-then-auth"]))
+                    bad = [f for n, f in late.parsed_frames(n0) if isinstance(f, list) and f[0] in ("EVENT", "EOSE") and f[1] == "early"]
+                    if bad:
+                        viols.append({"key": "%s/refused-req-served-later" % backend,
+                                      "msg": "[%s] query=%s: REQ 'early' was refused ('restricted'), yet after AUTH + REQ 'mine' the connection received %d frame(s) under 'early' (%s)"
+                                             % (backend, query_roles, len(bad), [f[0] for f in bad][:4]), "replay": rp})
         # every EVENT frame must be covered by an approving validator call for that event + connection
         approved = {}
         denied = set()
@@ -290,6 +344,61 @@ async def run_readback(backend, n, counters, seed):
     return viols, nontrivial
 
 
+async def run_reopen(backend, n, counters, seed):
+    """assignments, then at once an orderly close; a new storage on the same files must read the last ones back"""
+    from .. import env
+
+    service = ref.key_from_seed("service")
+    cfg = {"analysis_delay": 0, "service_privatekey": service.sk_hex, "authentication": {"enabled": True, "relay_urls": ["ws://localhost:6969"]}}
+    scratch = env.scratch("vf-c14-reopen-")
+    r = random.Random(seed)
+    viols, nontrivial = [], []
+    rb = counters.setdefault("readback", {})
+    last = {}
+    keys = [ref.key_from_seed("c14-ro-%d-%d" % (seed, i)) for i in range(n)]
+    rounds = 3
+    for rnd in range(rounds):
+        rig = R.Rig(backend=backend, config=cfg, scratch_dir=scratch)
+        await rig.start(create_schema=(rnd == 0))
+        try:
+            # what the previous incarnation was told
+            for k in keys:
+                if k.pk in last:
+                    got = await rig.storage.get_auth_roles(k.pk)
+                    want = set(last[k.pk].lower())
+                    rb["after_reopen"] = rb.get("after_reopen", 0) + 1
+                    nontrivial.append(h([backend, "reopen", rnd, last[k.pk]]))
+                    if got != want and not (want == set() and got in (set(), {"a"})):
+                        viols.append({"key": "%s/readback/lost-by-close" % backend,
+                                      "msg": "[%s] roles of %s were set to %r, the storage was closed in an orderly way and re-opened: they read back as %s"
+                                             % (backend, k.pk[:8], last[k.pk], sorted(got)), "replay": {"backend": backend, "mode": "reopen", "seed": seed, "n": n}})
+            if rnd == rounds - 1:
+                break
+            conn = rig.connect("load")
+            for k in keys:
+                roles = r.choice(SUBSETS)
+                await rig.storage.set_auth_roles(k.pk, roles)
+                last[k.pk] = roles
+            if rnd == 0:
+                await rig.quiesce()
+            # a second batch (and some ordinary traffic) right before the close
+            for i, k in enumerate(keys):
+                if r.random() < 0.7:
+                    roles = r.choice([x for x in SUBSETS if x != last[k.pk]])
+                    if i % 4 == 0:
+                        conn.feed(["EVENT", ref.make_event(service, kind=1, created_at=gen.T0 + i, content="load %d %d %d" % (seed, rnd, i))])
+                    await rig.storage.set_auth_roles(k.pk, roles)
+                    last[k.pk] = roles
+                    rb["assignments"] = rb.get("assignments", 0) + 1
+            await conn.processed()
+        finally:
+            await rig.close()
+    import shutil
+
+    shutil.rmtree(scratch, ignore_errors=True)
+    return viols, nontrivial
+
+
 def run_shard(spec):
     counters = {}
     viols, nontrivial = [], []
@@ -297,6 +406,10 @@ def run_shard(spec):
         v, nt = R.run(run_readback, spec["backend"], spec["n"], counters, spec["case_seed"])
         viols.extend(v)
         nontrivial.extend(nt)
+        for j in range(2 if spec["n"] <= 12 else 6):
+            v, nt = R.run(run_reopen, spec["backend"], 12, counters, spec["case_seed"] + j)
+            viols.extend(v)
+            nontrivial.extend(nt)
     else:
         for i, (s, q) in enumerate(spec["maps"]):
             v, nt = R.run(run_map, spec["backend"], s, q, counters, spec["case_seed"] + i)
@@ -315,7 +428,9 @@ def run_shard(spec):
 
 def replay(rp, spec):
     counters = {}
-    if rp.get("mode") == "readback":
+    if rp.get("mode") == "reopen":
+        v, nt = R.run(run_reopen, rp["backend"], rp["n"], counters, rp["seed"])
+    elif rp.get("mode") == "readback":
         v, nt = R.run(run_readback, rp["backend"], rp["n"], counters, rp["seed"])
     else:
         v, nt = R.run(run_map, rp["backend"], rp["save"], rp["query"], counters, rp["seed"])
